@@ -397,4 +397,85 @@ example :
     = some [(0, 0), (0, 2), (1, 0), (1, 2)] := by
   decide
 
+/-! ## conditional auxiliaries: suspending and resuming is not an outline change
+
+`decideS frames helper` is the tick decision of a framer one of whose frames holds `aux helper if …`
+(`Model/FloClock.lean`); `runG d x0` is the machine over any decision function `d` with extra state. -/
+
+section conditionalAux
+variable {τ : Type} [Sub τ] [LE τ] [LT τ] [DecidableLE τ] [DecidableLT τ] [OfNat τ 0] {σ : Type}
+
+/-- **the clocks, for every decision function** (in particular `decideS`: suspenders starting, iterating
+and finishing their helper between `oe` and `oi`): the elapsed / recurred seen at an evaluation are
+counted from the last tick in which a transition was TAKEN (`entered`), nothing else restarts them. -/
+theorem C11_clocks_any_decision (d : τ → σ → St τ → Option Nat × σ) (x0 : σ) (nows : List τ)
+    (pre : List (Obs τ)) (oe : Obs τ) (mid : List (Obs τ)) (oi : Obs τ) (post : List (Obs τ))
+    (h : runG d x0 nows = pre ++ oe :: (mid ++ oi :: post))
+    (he : oe.entered = true) (hm : ∀ m ∈ mid, m.entered = false) :
+    oi.evalElapsed = some (oi.now - oe.now) ∧ oi.evalRecurred = some (mid.length + 1) := by
+  cases nows with
+  | nil => simp [runG] at h
+  | cons now0 rest =>
+    simp only [runG] at h
+    cases pre with
+    | nil =>
+      simp only [List.nil_append, List.cons.injEq] at h
+      obtain ⟨h0, h1⟩ := h
+      subst h0
+      have := runFromG_segment d mid _ _ _ oi post h1 hm
+      exact ⟨this.1, by simpa [enter] using this.2⟩
+    | cons p pre' =>
+      simp only [List.cons_append, List.cons.injEq] at h
+      obtain ⟨s', x', now, nows', ho, hr⟩ := runFromG_split d pre' _ _ _ oe _ h.2
+      have hen := segueG_enter d now s' x' (by rw [← ho]; exact he)
+      rw [← ho] at hen
+      have := runFromG_segment d mid _ _ _ oi post hr.symm hm
+      rw [hen.1, hen.2] at this
+      have hnow : oe.now = now := by rw [ho, segueG_now]
+      exact ⟨by rw [hnow]; exact this.1, by simpa using this.2⟩
+
+/-- the same, spelled out for a framer with a conditional auxiliary -/
+theorem C11_clocks_with_conditional_aux (fr : List (SFrame τ)) (hp : Helper τ) (nows : List τ)
+    (pre : List (Obs τ)) (oe : Obs τ) (mid : List (Obs τ)) (oi : Obs τ) (post : List (Obs τ))
+    (h : runG (decideS fr hp) {} nows = pre ++ oe :: (mid ++ oi :: post))
+    (he : oe.entered = true) (hm : ∀ m ∈ mid, m.entered = false) :
+    oi.evalElapsed = some (oi.now - oe.now) ∧ oi.evalRecurred = some (mid.length + 1) :=
+  C11_clocks_any_decision (decideS fr hp) {} nows pre oe mid oi post h he hm
+
+/-- **a tick without a taken transition keeps the clocks running** — whether the suspender started its
+helper (outline truncated), iterated it, or saw it finish (outline restored) in that tick -/
+theorem C11_suspension_is_not_an_outline_change (fr : List (SFrame τ)) (hp : Helper τ) (now : τ)
+    (s : St τ) (x : Aux τ)
+    (hstay : (decideS fr hp now x { s with elapsed := now - s.stamp, recurred := s.recurred + 1 }).1 = none) :
+    let o := (segueG (decideS fr hp) now s x).1
+    o.entered = false ∧ o.after.stamp = s.stamp ∧ o.after.recurred = s.recurred + 1 ∧
+      o.after.elapsed = now - s.stamp ∧ o.after.active = s.active := by
+  rcases segueG_cases (decideS fr hp) now s x with ⟨far, x', hd, _⟩ | ⟨x', _, hs⟩
+  · unfold evalState at hd; rw [hd] at hstay; cases hstay
+  · rw [hs]; exact ⟨rfl, rfl, rfl, rfl, rfl⟩
+
+/-- the machine of the first part is the instance without extra state, so all its theorems are about
+this machine too -/
+theorem C11_plain_machine_is_instance (tr : Nat → List (Trans τ)) (nows : List τ) :
+    runG (decideT tr) () nows = run tr nows := by
+  cases nows with
+  | nil => rfl
+  | cons now rest => simp only [runG, run, runFromG_decideT]
+
+end conditionalAux
+
+/-- non-vacuity: period 1; frame 0 (over) has `go 2 if elapsed >= 6`; frame 1 in 0 has
+`aux helper if recurred >= 2` then `repeat 8`; the helper (`repeat 3`, then a `done` frame) runs from
+tick 2, finishes at tick 5; the main clocks run through: elapsed 1 … 5, transition at tick 6. -/
+example :
+    let fr : List (SFrame Int) :=
+      [⟨none, [.trans ⟨[.elapsed .ge 6], 2⟩]⟩,
+       ⟨some 0, [.susp [.recurred .ge 2], .trans ⟨[.recurred .ge 8], 2⟩]⟩,
+       ⟨none, [.trans ⟨[], 0⟩]⟩]
+    let hp : Helper Int := ⟨[⟨none, [⟨[.recurred .ge 3], 1⟩]⟩, ⟨none, []⟩], [1]⟩
+    (runG (decideS fr hp) {} (stamps 1 9)).map (fun o => (o.after.active, o.entered, o.after.elapsed, o.after.recurred))
+      = [(0, true, 0, 0), (0, false, 1, 1), (0, false, 2, 2), (0, false, 3, 3), (0, false, 4, 4), (0, false, 5, 5),
+         (2, true, 0, 0), (0, true, 0, 0), (0, false, 1, 1)] := by
+  decide
+
 end Ioflo.FloClock
